@@ -385,6 +385,13 @@ def run_scenario(scn, workdir):
         out.update(status="violation", clause=clause, message=msg, signature=sig)
         return out
 
+    # scores that are not finite (a calibration group without decoys, or whose lowest accepted target equals the decoy
+    # median) are outside every statement's quantifier; what the report stage then does with NaN scores - the text path
+    # writes them out, the Parquet path raises - is not compared (found by a soak run: seed 2000, 1 of 3627 scenarios)
+    if ref.scores and any(not np.all(np.isfinite(sc)) for sc in ref.scores):
+        out.update(status="uninformative", message="reference scores are not finite (a fold whose lowest accepted target "
+                   "equals the decoy median: outside the calibration statement's quantifier)")
+        return out
     # (i) error parity
     if ref.exc is not None or got.exc is not None:
         if ref.exc is None:
